@@ -284,6 +284,70 @@ example : (run [.bindLit 0, .enter, .bindTensor 1, .enter, .use 0, .exit [], .ex
     safe 0 0 [.enter, .bindTensor 1, .enter, .use 0, .exit [], .exit [1]] = true ∧
     (run [.bindLit 0, .enter, .bindTensor 0, .use 0, .exit [0], .use 0]).obs = [some false, some false] := by decide
 
+open OV.Scope in
+/-- **translation_refused_like_spec** (round 5).  The modelled refusals of the statement translators — a loop with no
+loop-carried name ("The loop has no effect"), a loop-carried name without a value before the loop ("Unbound name"), a
+live output of an If that one branch cannot see ("not assigned a value along a conditional branch"), an If without
+live outputs — fire in the converter's bookkeeping (scope stack of value names) exactly when they fire in the
+specification that only remembers "literal?" per binding: refusal never depends on the castable set or on value names. -/
+theorem translation_refused_like_spec (prog : List Instr) : (run prog).err = (runS prog).err :=
+  (rel_run prog St.init Sp.init rel_init).2.2.2.symm
+
+open OV.Scope in
+/-- **loop_carried_not_castable** (round 5; the model-level statement of what C01-D24 records).  After any prefix,
+at the top of a loop body (`for lv in range(..)` / `while c`), the loop variable and every loop-carried name — whatever
+they were bound to before the loop, literal included — are NOT CastLike'd: they are body-graph parameters. -/
+theorem loop_carried_not_castable (pre : List Instr) (lv : Option PyName) (state : List PyName) (n : PyName)
+    (hn : n ∈ lv.toList ++ state) :
+    (run (pre ++ [.enterLoop lv state, .use n])).obs.getLast? = some (some false) := by
+  rw [castable_refines_literal_flag]
+  simp only [runS, List.foldl_append, List.foldl_cons, List.foldl_nil, stepS]
+  rw [← List.foldl_append, lookupS_bindAll_false n _ _ (Or.inr hn)]
+  simp
+
+open OV.Scope in
+/-- **if_loop_outputs_not_castable** (round 5).  Right after an If statement (resp. a loop), each of its live outputs
+(resp. loop-carried names) is an ordinary tensor — even when every branch assigned it the same literal. -/
+theorem if_loop_outputs_not_castable (pre : List Instr) (outs : List PyName) (n : PyName) (hn : n ∈ outs) :
+    (run (pre ++ [.endIf outs, .use n])).obs.getLast? = some (some false) ∧
+    (run (pre ++ [.exitLoop outs, .use n])).obs.getLast? = some (some false) ∧
+    (run (pre ++ [.exit outs, .use n])).obs.getLast? = some (some false) := by
+  refine ⟨?_, ?_, ?_⟩ <;>
+  · rw [castable_refines_literal_flag]
+    simp only [runS, List.foldl_append, List.foldl_cons, List.foldl_nil, stepS]
+    rw [lookupS_bindAll_false n _ _ (Or.inr hn)]
+    simp
+
+open OV.Scope in
+/-- Non-vacuity and the shape of C01-D24: `a = 2; for i in range(3): (u = x*a; a = 2)`, then `x*a`;
+`if c: a = 1 else: a = 1`, then `x*a`; and the refusals: a loop-carried name with no value before the loop, a live
+output missing in one branch, an If without outputs, a loop without loop-carried names. -/
+example :
+    (run [.bindLit 0, .enterLoop (some 9) [0], .use 0, .bindLit 0, .use 0, .exitLoop [0], .use 0]).obs
+      = [some false, some true, some false] ∧
+    (run [.enter, .bindLit 0, .exitBranch [0], .enter, .bindLit 0, .exitBranch [0], .endIf [0], .use 0]).obs = [some false] ∧
+    (run [.enter, .bindLit 0, .exitBranch [0], .enter, .bindLit 0, .exitBranch [0], .endIf [0], .use 0]).err = false ∧
+    (run [.enterLoop (some 9) [0], .bindLit 0, .exitLoop [0]]).err = true ∧
+    (run [.enter, .bindLit 0, .exitBranch [0], .enter, .exitBranch [0], .endIf [0]]).err = true ∧
+    (run [.bindTensor 0, .enter, .bindLit 0, .exitBranch [0], .enter, .exitBranch [0], .endIf [0]]).err = false ∧
+    (run [.enter, .exitBranch [], .enter, .exitBranch [], .endIf []]).err = true ∧
+    (run [.enterLoop none [], .exitLoop []]).err = true := by decide
+
+open OV.Scope in
+/-- **scope_stack_balanced** (round 5).  For every instruction program that never leaves a block it did not enter
+(`depthAfter 0 prog = some d`: what the statement translators produce — `_enter_scope`/`_exit_scope` are paired around
+every then/else block and loop body), the converter's scope stack has exactly `d + 1` scopes afterwards; in particular
+after a whole function body (`d = 0`) it is back to the single function scope, and no `_exit_scope` of such a program ever
+pops the function scope itself (the model's `tail` is the real `pop`, never applied to a one-scope stack). -/
+theorem scope_stack_balanced (prog : List Instr) (d : Nat) (h : depthAfter 0 prog = some d) :
+    (run prog).locals.length = d + 1 :=
+  foldl_depth prog St.init 0 d rfl h
+
+open OV.Scope in
+/-- Non-vacuity: a loop containing an If (balanced, depth 0 at the end), and an unbalanced program. -/
+example : depthAfter 0 [.bindLit 0, .enterLoop (some 9) [0], .enter, .use 0, .exitBranch [], .enter, .exitBranch [], .bindLit 0,
+    .exitLoop [0], .use 0] = some 0 ∧ depthAfter 0 [.enter, .exit [], .exit []] = none := by decide
+
 /-! ## The converter's promotion and the opset (finding D47, fixed by 7b0eb49) -/
 
 /-- **static_promotion_exists_at_every_opset.**  For the code as it is: at every default opset and whether or not the
